@@ -80,7 +80,7 @@ def drift(workdir, behs, maxw, unit):
 
 CHAIN_CFG = ("SPECIFICATION Spec\nCONSTANTS MaxLen = %d\n MaxOps = %d\n MaxCmt = %d\n MaxW = %d\n Unit = %d\n GenOn = %s\n"
              "INVARIANTS %s\nCHECK_DEADLOCK FALSE\n")
-CHAIN_INVS = "InvTermination InvConservation InvNoDoubleBlank InvIndentUnit InvHygiene"
+CHAIN_INVS = "InvTermination InvConservation InvNoDoubleBlank InvIndentUnit InvHygiene InvConvergence"
 
 
 def concretise_events(seq):
